@@ -257,6 +257,8 @@ Fixpoint parse_jdoc (s : sexp) : option jdoc :=
   | SList [Atom h; a] =>
       if bytes_eqb h (T "js") then option_map JS (as_hex a)
       else if bytes_eqb h (T "jn") then option_map JN (as_int a)
+      else if bytes_eqb h (T "jb") then option_map JB (as_bool a)
+      else if bytes_eqb h (T "jnull") then Some JNull
       else if bytes_eqb h (T "jo") then
         match a with
         | SList l =>
